@@ -1,5 +1,273 @@
-(* C14 — placeholder; the theorems are added as BT/*Proofs.v land *)
-From Coq Require Import List NArith ZArith Bool.
-From Emu.BT Require Import Types Mutate Server.
-Example C14_model_runs : snd (step nil (mkCall (BGetTable nil) 0%Z nil)) = fail cNotFound.
-Proof. reflexivity. Qed.
+(* C14 — Bigtable: admin requests change exactly what they name.
+   Only statements here; proofs are in BT/AdminProofs.v. *)
+From Coq Require Import List NArith ZArith Bool Sorting.
+Import ListNotations.
+From Emu.Common Require Import Bytes Str StrProofs.
+From Emu.BT Require Import Types Mutate Filter RowSet Server ScanProofs AdminProofs.
+Local Open Scope Z_scope.
+
+(* ---- tables: create / get / list / delete ---- *)
+
+(* creating an existing table: AlreadyExists, nothing changes *)
+Theorem C14_create_existing : forall s parent tid fams now coins t,
+  alookup (table_name parent tid) s = Some t ->
+  step s (mkCall (BCreateTable parent tid fams) now coins) = (s, fail cAlreadyExists).
+Proof. exact create_existing. Qed.
+Print Assumptions C14_create_existing.
+
+(* after a successful create the table exists with the given families, no rows, and GetTable
+   returns the families *)
+Theorem C14_create_then_get : forall s parent tid fams now coins now' coins',
+  alookup (table_name parent tid) s = None ->
+  let s' := fst (step s (mkCall (BCreateTable parent tid fams) now coins)) in
+  alookup (table_name parent tid) s' = Some (mkTable (make_fams fams) [])
+  /\ step s' (mkCall (BGetTable (table_name parent tid)) now' coins')
+     = (s', ok (YTable (table_name parent tid) (make_fams fams))).
+Proof. exact create_then_get. Qed.
+Print Assumptions C14_create_then_get.
+
+Theorem C14_create_then_listed : forall s parent tid fams now coins now' coins',
+  alookup (table_name parent tid) s = None ->
+  let s' := fst (step s (mkCall (BCreateTable parent tid fams) now coins)) in
+  exists l, step s' (mkCall (BListTables parent) now' coins') = (s', ok (YTables l))
+            /\ In (table_name parent tid) l.
+Proof. exact create_then_listed. Qed.
+Print Assumptions C14_create_then_listed.
+
+(* ListTables: exactly the stored names under the parent; nothing changes *)
+Theorem C14_list_tables_spec : forall s parent now coins,
+  exists l, step s (mkCall (BListTables parent) now coins) = (s, ok (YTables l))
+            /\ forall n, In n l <-> In n (map fst s) /\ has_prefix n (parent ++ s_tables_sep) = true.
+Proof. exact list_tables_spec. Qed.
+Print Assumptions C14_list_tables_spec.
+
+(* EVERY request naming a missing table: NotFound, nothing changes *)
+Theorem C14_missing_table_not_found : forall s r now coins n,
+  req_table r = Some n -> alookup n s = None -> step s (mkCall r now coins) = (s, fail cNotFound).
+Proof. exact missing_table_not_found. Qed.
+Print Assumptions C14_missing_table_not_found.
+
+(* after a successful delete every request naming the table answers NotFound *)
+Theorem C14_delete_then_not_found : forall s name now coins t, asorted s -> alookup name s = Some t ->
+  let s' := fst (step s (mkCall (BDeleteTable name) now coins)) in
+  snd (step s (mkCall (BDeleteTable name) now coins)) = ok YNone
+  /\ alookup name s' = None
+  /\ forall r now' coins', req_table r = Some name -> step s' (mkCall r now' coins') = (s', fail cNotFound).
+Proof. exact delete_then_not_found. Qed.
+Print Assumptions C14_delete_then_not_found.
+
+Theorem C14_delete_then_requests : forall s name now coins t, asorted s -> alookup name s = Some t ->
+  let s' := fst (step s (mkCall (BDeleteTable name) now coins)) in
+  (forall n c, step s' (mkCall (BGetTable name) n c) = (s', fail cNotFound))
+  /\ (forall key muts n c, step s' (mkCall (BMutateRow name key muts) n c) = (s', fail cNotFound))
+  /\ (forall keys ranges f limit n c, step s' (mkCall (BReadRows name keys ranges f limit) n c) = (s', fail cNotFound)).
+Proof. exact delete_then_requests. Qed.
+Print Assumptions C14_delete_then_requests.
+
+(* a re-created table has no rows *)
+Theorem C14_delete_then_create_empty : forall s parent tid fams now coins now' coins' t, asorted s ->
+  alookup (table_name parent tid) s = Some t ->
+  let s1 := fst (step s (mkCall (BDeleteTable (table_name parent tid)) now coins)) in
+  let s2 := fst (step s1 (mkCall (BCreateTable parent tid fams) now' coins')) in
+  alookup (table_name parent tid) s2 = Some (mkTable (make_fams fams) []).
+Proof. exact delete_then_create_empty. Qed.
+Print Assumptions C14_delete_then_create_empty.
+
+(* frame: whatever the request, a table other than the one it names is untouched (in particular
+   tables under another parent) *)
+Theorem C14_step_frame : forall s c other, affected (cl_req c) <> Some other ->
+  alookup other (fst (step s c)) = alookup other s.
+Proof. exact step_frame. Qed.
+Print Assumptions C14_step_frame.
+
+(* ---- ModifyColumnFamilies ---- *)
+
+(* atomic: validation fails => that code and no change; succeeds => families = apply_mods *)
+Theorem C14_modify_families_atomic : forall s name mods now coins t, alookup name s = Some t ->
+  step s (mkCall (BModifyFamilies name mods) now coins) =
+  if N.eqb (validate_mods (map fst (t_fams t)) mods) cOK
+  then (set_table s name (apply_mods t mods), ok (YTable name (t_fams (apply_mods t mods))))
+  else (s, fail (validate_mods (map fst (t_fams t)) mods)).
+Proof. exact modify_families_atomic. Qed.
+Print Assumptions C14_modify_families_atomic.
+
+Theorem C14_apply_mods_fams : forall mods t, t_fams (apply_mods t mods) = fold_left mod_fams mods (t_fams t).
+Proof. exact apply_mods_fams. Qed.
+Print Assumptions C14_apply_mods_fams.
+
+(* validation = sequential simulation: the status of the first modification that fails against
+   the families left by its predecessors in the same request *)
+Theorem C14_validate_mods_sequential : forall t mods, asorted (t_fams t) ->
+  validate_mods (map fst (t_fams t)) mods = first_error t mods.
+Proof. exact validate_mods_sequential. Qed.
+Print Assumptions C14_validate_mods_sequential.
+
+Theorem C14_validate_create_existing : forall ex id rule rest,
+  existsb (beqb id) ex = true -> validate_mods ex (MCreate id rule :: rest) = cAlreadyExists.
+Proof. exact validate_create_existing. Qed.
+Print Assumptions C14_validate_create_existing.
+Theorem C14_validate_drop_unknown : forall ex id rest,
+  existsb (beqb id) ex = false -> validate_mods ex (MDrop id :: rest) = cUnknown.
+Proof. exact validate_drop_unknown. Qed.
+Print Assumptions C14_validate_drop_unknown.
+Theorem C14_validate_update_unknown : forall ex id rule rest,
+  existsb (beqb id) ex = false -> validate_mods ex (MUpdate id rule :: rest) = cUnknown.
+Proof. exact validate_update_unknown. Qed.
+Print Assumptions C14_validate_update_unknown.
+Theorem C14_validate_create_twice : forall ex id r1 r2 rest,
+  validate_mods ex (MCreate id r1 :: MCreate id r2 :: rest) = cAlreadyExists.
+Proof. exact validate_create_twice. Qed.
+Print Assumptions C14_validate_create_twice.
+Theorem C14_validate_drop_then_use : forall ex id rule rest,
+  validate_mods ex (MDrop id :: MUpdate id rule :: rest) = cUnknown
+  /\ validate_mods ex (MDrop id :: MDrop id :: rest) = cUnknown.
+Proof. exact validate_drop_then_use. Qed.
+Print Assumptions C14_validate_drop_then_use.
+Theorem C14_validate_create_then_use : forall ex id r1 rule rest,
+  existsb (beqb id) ex = false ->
+  validate_mods ex (MCreate id r1 :: MUpdate id rule :: rest) = validate_mods (id :: ex) rest.
+Proof. exact validate_create_then_use. Qed.
+Print Assumptions C14_validate_create_then_use.
+
+(* ---- dropping a family ---- *)
+
+Theorem C14_drop_family_step : forall s name f now coins t,
+  alookup name s = Some t -> known_family (t_fams t) f = true ->
+  step s (mkCall (BModifyFamilies name [MDrop f]) now coins) =
+  (set_table s name (drop_family t f), ok (YTable name (aremove f (t_fams t)))).
+Proof. exact drop_family_step. Qed.
+Print Assumptions C14_drop_family_step.
+
+(* exactly family f is lost: from the schema, and from every row (rows in stored form); rows
+   left without families disappear; absent keys stay absent *)
+Theorem C14_drop_family_removes_exactly : forall t f, asorted (t_fams t) -> asorted (t_rows t) ->
+  let t' := drop_family t f in
+  t_fams t' = aremove f (t_fams t)
+  /\ known_family (t_fams t') f = false
+  /\ (forall g, g <> f -> alookup g (t_fams t') = alookup g (t_fams t))
+  /\ asorted (t_rows t')
+  /\ (forall k, alookup k (t_rows t) = None -> alookup k (t_rows t') = None)
+  /\ (forall k fs, alookup k (t_rows t) = Some fs -> row_stored t fs ->
+        let fs' := filter (fun fm => negb (beqb (fam_name fm) f)) fs in
+        alookup k (t_rows t') = nonempty_opt fs'
+        /\ get_family fs' f = None
+        /\ (forall g, g <> f -> get_family fs' g = get_family fs g)).
+Proof. exact drop_family_removes_exactly. Qed.
+Print Assumptions C14_drop_family_removes_exactly.
+
+Theorem C14_drop_family_then_setcell_rejected : forall s name f now coins t key q ts v rest now' coins',
+  alookup name s = Some t -> known_family (t_fams t) f = true -> asorted (t_fams t) ->
+  let s' := fst (step s (mkCall (BModifyFamilies name [MDrop f]) now coins)) in
+  step s' (mkCall (BMutateRow name key (SetCell f q ts v :: rest)) now' coins') = (s', fail cUnknown).
+Proof. exact drop_family_then_setcell_rejected. Qed.
+Print Assumptions C14_drop_family_then_setcell_rejected.
+
+(* ---- DropRowRange ---- *)
+
+(* byte-order facts behind the walk "from the first key >= p while the prefix matches" *)
+Theorem C14_prefix_block : forall p k1 k2,
+  (has_prefix k2 p = true -> lex_le p k2)
+  /\ (lex_le p k1 -> lex_lt k1 k2 -> has_prefix k2 p = true -> has_prefix k1 p = true).
+Proof. exact prefix_block. Qed.
+Print Assumptions C14_prefix_block.
+
+(* exactly the rows with prefix p go, for every p *)
+Theorem C14_drop_prefix_exact : forall s name p now coins t, alookup name s = Some t -> asorted (t_rows t) ->
+  step s (mkCall (BDropRowRange name false (Some p)) now coins) =
+  (set_table s name (mkTable (t_fams t) (filter (fun r => negb (has_prefix (fst r) p)) (t_rows t))), ok YNone).
+Proof. exact drop_prefix_exact. Qed.
+Print Assumptions C14_drop_prefix_exact.
+
+Theorem C14_drop_prefix_lookup : forall s name p now coins t, alookup name s = Some t -> asorted (t_rows t) ->
+  exists t', step s (mkCall (BDropRowRange name false (Some p)) now coins) = (set_table s name t', ok YNone)
+    /\ t_fams t' = t_fams t /\ asorted (t_rows t')
+    /\ (forall k, has_prefix k p = true -> alookup k (t_rows t') = None)
+    /\ (forall k, has_prefix k p = false -> alookup k (t_rows t') = alookup k (t_rows t))
+    /\ (forall kv, In kv (t_rows t') <-> In kv (t_rows t) /\ has_prefix (fst kv) p = false).
+Proof. exact drop_prefix_lookup. Qed.
+Print Assumptions C14_drop_prefix_lookup.
+
+Theorem C14_drop_prefix_empty : forall s name now coins t, alookup name s = Some t -> asorted (t_rows t) ->
+  step s (mkCall (BDropRowRange name false (Some [])) now coins) = (set_table s name (mkTable (t_fams t) []), ok YNone).
+Proof. exact drop_prefix_empty. Qed.
+Print Assumptions C14_drop_prefix_empty.
+
+Theorem C14_drop_all : forall s name pfx now coins t, alookup name s = Some t ->
+  step s (mkCall (BDropRowRange name true pfx) now coins) = (set_table s name (mkTable (t_fams t) []), ok YNone).
+Proof. exact drop_all. Qed.
+Print Assumptions C14_drop_all.
+
+Theorem C14_drop_nothing : forall s name now coins t, alookup name s = Some t ->
+  step s (mkCall (BDropRowRange name false None) now coins) = (s, fail cUnknown).
+Proof. exact drop_nothing. Qed.
+Print Assumptions C14_drop_nothing.
+
+Theorem C14_drop_keeps_schema : forall s name all pfx now coins t, alookup name s = Some t ->
+  match alookup name (fst (step s (mkCall (BDropRowRange name all pfx) now coins))) with
+  | Some t' => t_fams t' = t_fams t
+  | None => False
+  end.
+Proof. exact drop_keeps_schema. Qed.
+Print Assumptions C14_drop_keeps_schema.
+
+(* ---- the sortedness hypotheses are invariants of every run from the empty server ---- *)
+Theorem C14_step_wf : forall s c, server_wf s -> server_wf (fst (step s c)).
+Proof. exact step_wf. Qed.
+Print Assumptions C14_step_wf.
+
+Theorem C14_reachable_wf : forall cs, server_wf (fst (run [] cs)).
+Proof. exact reachable_wf. Qed.
+Print Assumptions C14_reachable_wf.
+
+(* ---- non-vacuity ---- *)
+Definition C14_cell : list cell := [mkCell 0 [118%N] []].
+Definition C14_f : family := mkFam [102%N] [mkCol [113%N] C14_cell].
+Definition C14_g : family := mkFam [103%N] [mkCol [113%N] C14_cell].
+(* keys a, a\xff, a\xff\0, a\xff\xff, b *)
+Definition C14_t : table :=
+  mkTable [([102%N], None); ([103%N], Some (GMaxVersions 1))]
+          [([97%N], [C14_f; C14_g]); ([97; 255]%N, [C14_f]); ([97; 255; 0]%N, [C14_g]);
+           ([97; 255; 255]%N, [C14_f; C14_g]); ([98%N], [C14_g])].
+Definition C14_name : bytes := table_name [112%N] [116%N].       (* p/tables/t *)
+Definition C14_other : bytes := table_name [113%N] [116%N].      (* q/tables/t *)
+Definition C14_s : server := [(C14_name, C14_t); (C14_other, C14_t)].
+
+Example C14_hyps_met :
+  server_wf C14_s /\ alookup C14_name C14_s = Some C14_t
+  /\ asorted (t_rows C14_t) /\ asorted (t_fams C14_t)
+  /\ known_family (t_fams C14_t) [102%N] = true
+  /\ Forall (fun kv => row_stored C14_t (snd kv)) (t_rows C14_t).
+Proof.
+  assert (Hr : asorted (t_rows C14_t)) by (repeat (constructor; try reflexivity)).
+  assert (Hf : asorted (t_fams C14_t)) by (repeat (constructor; try reflexivity)).
+  split; [|split; [|split; [|split; [|split]]]]; auto.
+  - split; [repeat (constructor; try reflexivity)|].
+    intros n t H. unfold C14_s in H. cbn [alookup] in H.
+    destruct (beqb n C14_name); [injection H as <-; split; auto|].
+    destruct (beqb n C14_other); [injection H as <-; split; auto|discriminate].
+  - repeat constructor.
+Qed.
+
+(* prefix ending in 0xff that is also a key: exactly the three a\xff* rows go *)
+Example C14_drop_prefix_example :
+  let s' := fst (step C14_s (mkCall (BDropRowRange C14_name false (Some [97; 255]%N)) 0 [])) in
+  (match alookup C14_name s' with Some t' => map fst (t_rows t') | None => [] end) = [[97]; [98]]%N
+  /\ alookup C14_other s' = Some C14_t.
+Proof. vm_compute. split; reflexivity. Qed.
+
+(* dropping family f: row a\xff (only f) disappears, the others lose f *)
+Example C14_drop_family_example :
+  let s' := fst (step C14_s (mkCall (BModifyFamilies C14_name [MDrop [102%N]]) 0 [])) in
+  (match alookup C14_name s' with
+   | Some t' => (map fst (t_fams t'), map (fun kv => (fst kv, map fam_name (snd kv))) (t_rows t'))
+   | None => ([], [])
+   end)
+  = ([[103%N]], [([97%N], [[103%N]]); ([97; 255; 0]%N, [[103%N]]); ([97; 255; 255]%N, [[103%N]]); ([98%N], [[103%N]])])
+  /\ snd (step s' (mkCall (BMutateRow C14_name [97%N] [SetCell [102%N] [113%N] 0 [118%N]]) 0 [])) = fail cUnknown.
+Proof. vm_compute. split; reflexivity. Qed.
+
+(* atomicity: [create new; create existing] answers AlreadyExists and keeps nothing (BT-11) *)
+Example C14_modify_atomic_example :
+  step C14_s (mkCall (BModifyFamilies C14_name [MCreate [104%N] None; MCreate [102%N] None]) 0 [])
+  = (C14_s, fail cAlreadyExists).
+Proof. vm_compute. reflexivity. Qed.
